@@ -1,9 +1,451 @@
 package main
 
-// replayObligation tries to turn the solver's candidate model into a failing run of the real code.
-func replayObligation(p *Program, r *funcReport, o *Obligation, prop, replayDir, verif string) (bool, string) {
-	rp := writeReplayFile(replayDir, o.Name, prop, o, "obligation not discharged", "")
-	return false, rp
+import (
+	"bytes"
+	"encoding/json"
+	"fmt"
+	"go/types"
+	"os"
+	"os/exec"
+	"path/filepath"
+	"strings"
+	"time"
+)
+
+type racClause struct {
+	Kind string // requires | inv | post | must-panic | panics-only-if
+	Idx  int
+	Text string
+	Code string
+	Err  string
 }
 
-func cmdReplay(args []string) int { return 2 }
+// buildReplayTest generates an in-package test that runs the real function on candidate inputs and evaluates its contract
+// at run time: case 0 is the input rebuilt from the solver's model (when it can be rebuilt), the other cases come from the
+// input pools of the package (bounded search). The first case on which an executable clause of the contract fails is reported.
+func buildReplayTest(p *Program, s *Session, o *Obligation) (src string, notes []string, err error) {
+	fn := s.Fn
+	c := s.C
+	pkgName := pkgNameOf(fn)
+	tpkg := p.Pkgs[pkgName].Pkg
+	vals := []*SX{}
+	if o != nil && o.Model != "" {
+		top := parseSX(o.Model)
+		if len(top) == 1 && !top[0].IsAtom() {
+			for _, pair := range top[0].List {
+				if !pair.IsAtom() && len(pair.List) == 2 {
+					vals = append(vals, pair.List[1])
+				}
+			}
+		}
+	}
+	gb := &goBuilder{vals: vals, pkg: tpkg, p: p}
+	g := &racGen{p: p, pkg: pkgName, tpkg: tpkg, env: map[string]gval{}, lets: map[string]*XNode{}}
+	var sb strings.Builder
+	sb.WriteString("//go:build verif\n\npackage " + pkgName + "\n\nimport (\n\t\"fmt\"\n\t\"math\"\n\t\"math/big\"\n\t\"reflect\"\n\t\"regexp\"\n\t\"strconv\"\n\t\"strings\"\n\t\"testing\"\n\t\"unicode\"\n")
+	if pkgName != "ast" {
+		sb.WriteString("\t\"" + modPath + "/pkg/ast\"\n")
+	}
+	sb.WriteString(")\n\n")
+	if pkgName != "ast" {
+		sb.WriteString("var _ = ast.NewEmptyItemNode\n")
+	}
+	// ---- model case
+	modelCase := ""
+	if len(vals) == len(s.inputTerms) && len(vals) > 0 {
+		var vs []string
+		for i := range fn.Params {
+			vs = append(vs, gb.value(s.inputs[i]))
+		}
+		if gb.bad == "" {
+			modelCase = "[]interface{}{" + strings.Join(vs, ", ") + "}"
+		} else {
+			notes = append(notes, "the model's input cannot be rebuilt: "+gb.bad)
+		}
+	} else if o != nil && o.Model != "" {
+		notes = append(notes, fmt.Sprintf("model has %d values for %d input terms", len(vals), len(s.inputTerms)))
+	}
+	// ---- the per-case checker
+	sb.WriteString("func govcCheck(c []interface{}) (verdict string) {\n")
+	sb.WriteString("\tdefer func() { if r := recover(); r != nil { verdict = \"\" } }()\n")
+	var argNames []string
+	for i, prm := range fn.Params {
+		nm := "a_" + prm.Name()
+		sb.WriteString(fmt.Sprintf("\ta_%s, _ := c[%d].(%s)\n\t_ = a_%s\n", prm.Name(), i, gb.typ(prm.Type()), prm.Name()))
+		argNames = append(argNames, nm)
+		g.env[prm.Name()] = gval{nm, prm.Type(), "go"}
+	}
+	if fn.Signature.Recv() != nil {
+		if _, isPtr := fn.Params[0].Type().Underlying().(*types.Pointer); isPtr {
+			sb.WriteString("\tif " + argNames[0] + " == nil {\n\t\treturn \"\"\n\t}\n")
+		}
+	}
+	sb.WriteString("\tpre := map[uintptr]bool{}\n")
+	for _, a := range argNames {
+		sb.WriteString("\tgovcReach(pre, " + a + ")\n")
+	}
+	for _, l := range c.Lets {
+		if n, err := parseXExpr(l.Expr.Text); err == nil {
+			g.lets[l.Name] = n
+		}
+	}
+	mk := func(kind string, i int, text string) racClause {
+		code, err := g.clause(text)
+		rc := racClause{Kind: kind, Idx: i + 1, Text: text, Code: code}
+		if err != nil {
+			rc.Err = err.Error()
+			notes = append(notes, fmt.Sprintf("%s[%d] is not executable: %s", kind, i+1, err.Error()))
+		}
+		return rc
+	}
+	var pre, panicsIf, panicsOnly, posts []racClause
+	for i, cl := range c.Requires {
+		pre = append(pre, mk("requires", i, cl.Text))
+	}
+	if recv := fn.Signature.Recv(); recv != nil && !c.Establishes {
+		if nt := namedOf(recv.Type()); nt != nil {
+			if tc := p.Contracts.Types[nt.Obj().Pkg().Name()+"."+nt.Obj().Name()]; tc != nil {
+				saved := g.env
+				env := map[string]gval{}
+				for k, v := range saved {
+					env[k] = v
+				}
+				env["self"] = g.env[fn.Params[0].Name()]
+				g.env = env
+				for i, cl := range tc.Invariant {
+					pre = append(pre, mk("inv", i, cl.Text))
+				}
+				g.env = saved
+			}
+		}
+	}
+	for i, cl := range c.PanicsIf {
+		panicsIf = append(panicsIf, mk("must-panic", i, cl.Text))
+	}
+	for i, cl := range c.PanicsOnlyIf {
+		panicsOnly = append(panicsOnly, mk("panics-only-if", i, cl.Text))
+	}
+	names := resultNames(fn.Signature)
+	for i, n := range names {
+		g.env[n] = gval{"r_" + n, fn.Signature.Results().At(i).Type(), "go"}
+	}
+	for i, cl := range c.Ensures {
+		posts = append(posts, mk("post", i, cl.Text))
+	}
+	for i, cl := range c.RacEnsures {
+		posts = append(posts, mk("rac_ensures", i, cl.Text))
+	}
+	// admissibility: every executable precondition / invariant must hold (a non-executable one makes the case unusable)
+	for _, rc := range pre {
+		if rc.Err != "" {
+			sb.WriteString("\treturn \"\" // " + rc.Kind + " not executable\n}\n")
+			sb.WriteString("func TestGovcReplay(t *testing.T) { fmt.Println(\"GOVC-BEGIN\"); fmt.Println(\"GOVC-END cases= 0\") }\n")
+			sb.WriteString(racSupport)
+			return sb.String(), notes, nil
+		}
+		sb.WriteString(fmt.Sprintf("\tif v, ok := govcTry(func() bool { return %s }); !ok || !v {\n\t\treturn \"\"\n\t}\n", rc.Code))
+	}
+	// entry-state values of the panic conditions
+	sb.WriteString("\tmustPanic, onlyIfKnown, onlyIfAny := \"\", true, false\n\t_, _, _ = mustPanic, onlyIfKnown, onlyIfAny\n")
+	for _, rc := range panicsIf {
+		if rc.Err != "" {
+			continue
+		}
+		sb.WriteString(fmt.Sprintf("\tif v, ok := govcTry(func() bool { return %s }); ok && v {\n\t\tmustPanic = %q\n\t}\n", rc.Code, fmt.Sprintf("panics_if[%d]: %s", rc.Idx, rc.Text)))
+	}
+	for _, rc := range panicsOnly {
+		if rc.Err != "" {
+			sb.WriteString("\tonlyIfKnown = false\n")
+			continue
+		}
+		sb.WriteString(fmt.Sprintf("\tif v, ok := govcTry(func() bool { return %s }); !ok {\n\t\tonlyIfKnown = false\n\t} else if v {\n\t\tonlyIfAny = true\n\t}\n", rc.Code))
+	}
+	for _, ol := range g.olds {
+		parts := strings.SplitN(ol, " := ", 2)
+		sb.WriteString("\t" + parts[0] + " := " + parts[1] + "\n\t_ = " + parts[0] + "\n")
+	}
+	for i, n := range names {
+		sb.WriteString(fmt.Sprintf("\tvar r_%s %s\n\t_ = r_%s\n", n, gb.typ(fn.Signature.Results().At(i).Type()), n))
+	}
+	call := ""
+	args := argNames
+	if fn.Signature.Recv() != nil {
+		call = args[0] + "." + fn.Name() + "("
+		args = args[1:]
+	} else {
+		call = fn.Name() + "("
+	}
+	for i, a := range args {
+		if i > 0 {
+			call += ", "
+		}
+		call += a
+		if fn.Signature.Variadic() && i == len(args)-1 {
+			call += "..."
+		}
+	}
+	call += ")"
+	lhs := ""
+	if len(names) > 0 {
+		var rs []string
+		for _, n := range names {
+			rs = append(rs, "r_"+n)
+		}
+		lhs = strings.Join(rs, ", ") + " = "
+	}
+	sb.WriteString("\tpanicked, pval := false, interface{}(nil)\n\t_ = pval\n\tfunc() {\n\t\tdefer func() {\n\t\t\tif r := recover(); r != nil {\n\t\t\t\tpanicked, pval = true, r\n\t\t\t}\n\t\t}()\n\t\t" + lhs + call + "\n\t}()\n")
+	switch {
+	case c.MayPanic || c.Recover:
+		// a panic is allowed (or cannot escape): nothing to check on the panic side
+		if c.Recover {
+			sb.WriteString("\tif panicked {\n\t\treturn fmt.Sprintf(\"a panic escaped a function whose contract says it recovers: %v\", pval)\n\t}\n")
+		}
+	case len(c.PanicsOnlyIf) > 0:
+		sb.WriteString("\tif panicked && onlyIfKnown && !onlyIfAny {\n\t\treturn fmt.Sprintf(\"panicked (%v) although no panics_only_if condition held on entry\", pval)\n\t}\n")
+	default:
+		sb.WriteString("\tif panicked {\n\t\treturn fmt.Sprintf(\"panicked (%v) although the contract allows no panic\", pval)\n\t}\n")
+	}
+	sb.WriteString("\tif panicked {\n\t\treturn \"\"\n\t}\n")
+	sb.WriteString("\tif mustPanic != \"\" {\n\t\treturn \"returned normally although \" + mustPanic\n\t}\n")
+	for _, rc := range posts {
+		if rc.Err != "" {
+			continue
+		}
+		sb.WriteString(fmt.Sprintf("\tif v, ok := govcTry(func() bool { return %s }); ok && !v {\n\t\treturn %q\n\t}\n", rc.Code, fmt.Sprintf("%s[%d] is false: %s", map[string]string{"post": "ensures", "rac_ensures": "rac_ensures"}[rc.Kind], rc.Idx, rc.Text)))
+	}
+	sb.WriteString("\treturn \"\"\n}\n\n")
+	// ---- the driver
+	sb.WriteString("func TestGovcReplay(t *testing.T) {\n\tfmt.Println(\"GOVC-BEGIN\")\n\tvar cases [][]interface{}\n")
+	if modelCase != "" {
+		sb.WriteString("\tcases = append(cases, " + modelCase + ")\n")
+	}
+	sb.WriteString("\tpools := make([][]interface{}, 0)\n")
+	for _, prm := range fn.Params {
+		ts := types.TypeString(prm.Type(), func(pk *types.Package) string {
+			if pk == tpkg {
+				return ""
+			}
+			return pk.Name()
+		})
+		sb.WriteString(fmt.Sprintf("\tpools = append(pools, govcPoolFor(%q, reflect.TypeOf((*%s)(nil)).Elem()))\n", ts, gb.typ(prm.Type())))
+	}
+	sb.WriteString("\tcases = append(cases, govcProduct(pools, 30000)...)\n")
+	sb.WriteString("\tfor i, c := range cases {\n\t\tif v := govcCheck(c); v != \"\" {\n\t\t\tfmt.Printf(\"GOVC-VIOLATION case=%d %s\\n\", i, v)\n\t\t\tfmt.Printf(\"GOVC-INPUT %s\\n\", govcShow(c))\n\t\t\tfmt.Println(\"GOVC-END cases=\", len(cases))\n\t\t\treturn\n\t\t}\n\t}\n")
+	sb.WriteString("\tfmt.Println(\"GOVC-END cases=\", len(cases))\n}\n")
+	sb.WriteString(racSupport)
+	sb.WriteString(racPoolsCommon)
+	switch pkgName {
+	case "ast":
+		sb.WriteString(racPoolsAst)
+	case "hsms":
+		sb.WriteString(racPoolsHsms)
+	case "sml":
+		sb.WriteString(racPoolsSml)
+	}
+	return sb.String(), notes, nil
+}
+
+type replayOutcome struct {
+	Confirmed bool
+	Reason    string
+	Output    string
+}
+
+func runReplayTest(p *Program, s *Session, testSrc, dir string) replayOutcome {
+	os.MkdirAll(dir, 0o755)
+	pkgName := pkgNameOf(s.Fn)
+	pkgDir := contractDirs[pkgName]
+	testFile := filepath.Join(dir, "zz_govc_replay_test.go")
+	os.WriteFile(testFile, []byte(testSrc), 0o644)
+	overlay := map[string]string{filepath.Join(p.RepoDir, pkgDir, "zz_govc_replay_test.go"): testFile}
+	for _, ov := range p.Overlaid {
+		// contract files injected from /verif/contracts
+		for name, d := range contractDirs {
+			if ov == filepath.Join(p.RepoDir, d, "zz_contracts_verif.go") {
+				overlay[ov] = filepath.Join(p.VerifDir, "contracts", name+"_zz_contracts_verif.go")
+			}
+		}
+	}
+	ovJSON, _ := json.Marshal(map[string]interface{}{"Replace": overlay})
+	ovFile := filepath.Join(dir, "overlay.json")
+	os.WriteFile(ovFile, ovJSON, 0o644)
+	cmd := exec.Command("bash", "-c", fmt.Sprintf("ulimit -v 8000000; cd %s && go test -tags verif -overlay %s -vet=off -count=1 -timeout 60s -run '^TestGovcReplay$' -v ./%s 2>&1", p.RepoDir, ovFile, pkgDir))
+	cmd.Env = append(os.Environ(), "GOFLAGS=-mod=mod", "GOPROXY=off", "GOSUMDB=off", "GOTOOLCHAIN=local")
+	var out bytes.Buffer
+	cmd.Stdout = &out
+	cmd.Stderr = &out
+	done := make(chan error, 1)
+	go func() { done <- cmd.Run() }()
+	select {
+	case <-done:
+	case <-time.After(150 * time.Second):
+		if cmd.Process != nil {
+			cmd.Process.Kill()
+		}
+	}
+	o := out.String()
+	if len(o) > 6000 {
+		o = o[:6000]
+	}
+	res := replayOutcome{Output: o}
+	if !strings.Contains(o, "GOVC-BEGIN") {
+		res.Reason = "replay test did not run (build error or crash): " + firstLine(o, ".go:")
+		return res
+	}
+	if v := firstLine(o, "GOVC-VIOLATION"); v != "" {
+		res.Confirmed = true
+		res.Reason = "the real function violates its contract: " + strings.TrimPrefix(v, "GOVC-VIOLATION ") + "   input: " + strings.TrimPrefix(firstLine(o, "GOVC-INPUT"), "GOVC-INPUT ")
+		return res
+	}
+	if !strings.Contains(o, "GOVC-END") {
+		if strings.Contains(o, "fatal error") || strings.Contains(o, "out of memory") || strings.Contains(o, "panic: test timed out") {
+			res.Confirmed = true
+			res.Reason = "the real function did not return (process aborted or timed out): " + firstLine(o, "fatal error") + firstLine(o, "panic: test timed out")
+			return res
+		}
+		res.Reason = "the replay run did not complete"
+		return res
+	}
+	res.Reason = "no executable clause of the contract failed on the model's input or on the enumerated inputs (" + strings.TrimSpace(firstLine(o, "GOVC-END")) + ")"
+	return res
+}
+
+func firstLine(o, marker string) string {
+	for _, ln := range strings.Split(o, "\n") {
+		if strings.Contains(ln, marker) {
+			return strings.TrimSpace(ln)
+		}
+	}
+	return ""
+}
+
+// replayObligation tries to turn the solver's candidate model into a failing run of the real code.
+func replayObligation(p *Program, r *funcReport, o *Obligation, prop, replayDir, verif string) (bool, string) {
+	reason := "obligation not discharged"
+	test := ""
+	confirmed := false
+	extra := map[string]interface{}{}
+	if r.Session == nil {
+		reason = "no session"
+	} else {
+		src, notes, err := buildReplayTest(p, r.Session, o)
+		if err != nil {
+			reason = "obligation not discharged; replay not possible: " + err.Error()
+		} else {
+			dir := filepath.Join(verif, "work", "replay", sanitizeFile(o.Name))
+			out := runReplayTest(p, r.Session, src, dir)
+			test = src
+			confirmed = out.Confirmed
+			reason = out.Reason
+			extra["replay_output"] = out.Output
+			extra["replay_notes"] = notes
+			extra["replay_cmd"] = "go test -tags verif -overlay <overlay.json mapping the test below into the package> -vet=off -run '^TestGovcReplay$' ./" + contractDirs[pkgNameOf(r.Session.Fn)]
+		}
+	}
+	// an internal function of a parser: also search through the public entry point with its contract
+	if !confirmed && r.Session != nil {
+		pk := pkgNameOf(r.Session.Fn)
+		if (pk == "hsms" || pk == "sml") && funcRelName(r.Session.Fn) != "Parse" {
+			if ec := p.Contracts.Funcs[pk+".Parse"]; ec != nil {
+				if efn := p.lookupFunc(pk, "Parse"); efn != nil {
+					if es, err := verifyFunction(p, efn, ec); err == nil {
+						if src, notes, err := buildReplayTest(p, es, nil); err == nil {
+							dir := filepath.Join(verif, "work", "replay", sanitizeFile(o.Name)+".entry")
+							out := runReplayTest(p, es, src, dir)
+							if out.Confirmed {
+								confirmed = true
+								test = src
+								reason = "searching through the public entry point " + pk + ".Parse: " + out.Reason
+								extra["replay_output"] = out.Output
+								extra["replay_notes"] = notes
+							} else {
+								extra["entry_point_search"] = out.Reason
+							}
+						}
+					}
+				}
+			}
+		}
+	}
+	rp := writeReplayFileX(replayDir, o.Name, prop, o, reason, test, confirmed, extra)
+	return confirmed, rp
+}
+
+func writeReplayFileX(dir, name, prop string, o *Obligation, reason, test string, confirmed bool, extra map[string]interface{}) string {
+	path := writeReplayFile(dir, name, prop, o, reason, test)
+	data, err := os.ReadFile(path)
+	if err != nil {
+		return path
+	}
+	var m map[string]interface{}
+	if json.Unmarshal(data, &m) != nil {
+		return path
+	}
+	m["confirmed_on_real_code"] = confirmed
+	for k, v := range extra {
+		m[k] = v
+	}
+	writeJSON(path, m)
+	return path
+}
+
+// cmdReplay re-runs the replay test stored in a replay file against the current tree.
+func cmdReplay(args []string) int {
+	if len(args) < 1 {
+		fmt.Fprintln(os.Stderr, "usage: govc replay <replay file>")
+		return 2
+	}
+	data, err := os.ReadFile(args[0])
+	if err != nil {
+		fmt.Fprintln(os.Stderr, err)
+		return 2
+	}
+	var m map[string]interface{}
+	if err := json.Unmarshal(data, &m); err != nil {
+		fmt.Fprintln(os.Stderr, err)
+		return 2
+	}
+	fmt.Printf("obligation: %v\nreason: %v\nconfirmed_on_real_code: %v\n", m["obligation"], m["reason"], m["confirmed_on_real_code"])
+	test, _ := m["replay_test"].(string)
+	if test == "" {
+		fmt.Println("no replay test stored (no failing input found); solver outputs are in the file")
+		return 0
+	}
+	repo := envOr("VERIF_REPO", "/repo")
+	verif := envOr("VERIF_DIR", "/verif")
+	p := &Program{RepoDir: repo, VerifDir: verif}
+	// package from the test source
+	pkg := "ast"
+	for _, ln := range strings.Split(test, "\n") {
+		if strings.HasPrefix(ln, "package ") {
+			pkg = strings.TrimSpace(strings.TrimPrefix(ln, "package "))
+			break
+		}
+	}
+	for name, d := range contractDirs {
+		if _, err := os.Stat(filepath.Join(repo, d, "zz_contracts_verif.go")); err != nil {
+			p.Overlaid = append(p.Overlaid, filepath.Join(repo, d, "zz_contracts_verif.go"))
+		}
+		_ = name
+	}
+	dir := filepath.Join(verif, "work", "replay", "manual")
+	os.MkdirAll(dir, 0o755)
+	testFile := filepath.Join(dir, "zz_govc_replay_test.go")
+	os.WriteFile(testFile, []byte(test), 0o644)
+	overlay := map[string]string{filepath.Join(repo, contractDirs[pkg], "zz_govc_replay_test.go"): testFile}
+	for _, ov := range p.Overlaid {
+		for name, d := range contractDirs {
+			if ov == filepath.Join(repo, d, "zz_contracts_verif.go") {
+				overlay[ov] = filepath.Join(verif, "contracts", name+"_zz_contracts_verif.go")
+			}
+		}
+	}
+	ovJSON, _ := json.Marshal(map[string]interface{}{"Replace": overlay})
+	ovFile := filepath.Join(dir, "overlay.json")
+	os.WriteFile(ovFile, ovJSON, 0o644)
+	cmd := exec.Command("bash", "-c", fmt.Sprintf("ulimit -v 8000000; cd %s && go test -tags verif -overlay %s -vet=off -count=1 -timeout 60s -run '^TestGovcReplay$' -v ./%s 2>&1", repo, ovFile, contractDirs[pkg]))
+	cmd.Env = append(os.Environ(), "GOFLAGS=-mod=mod", "GOPROXY=off", "GOSUMDB=off", "GOTOOLCHAIN=local")
+	out, _ := cmd.CombinedOutput()
+	fmt.Println(string(out))
+	return 0
+}
